@@ -43,7 +43,7 @@ from email.mime.multipart import MIMEMultipart
 from email.mime.application import MIMEApplication
 from email.encoders import encode_7or8bit
 
-from spyne import ValidationError
+from spyne import ValidationError, Fault
 from spyne.util import six
 from spyne.model.binary import ByteArray, File
 from spyne.const.xml import NS_XOP
@@ -74,7 +74,11 @@ def _join_attachment(ns_soap_env, href_id, envelope, payload, prefix=True,
     """
 
     # grab the XML element of the message in the SOAP body
-    soaptree = etree.fromstring(envelope, parser)
+    try:
+        soaptree = etree.fromstring(envelope, parser)
+    except etree.XMLSyntaxError as e:
+        raise Fault('Client.XMLSyntaxError', str(e))
+
     soapbody = soaptree.find("{%s}Body" % ns_soap_env)
 
     if soapbody is None:
